@@ -315,6 +315,9 @@ def switch_family():
                 name = ("u", "v", "w")[k]
                 try:
                     new, w, rd, bwd_ = sw.edit(KEY, tr, Update(C.kw(**{name: 0.75})), Diff.no_change(args))
+                    if Diff.static_check_no_change(rd) and not close(new.get_retval(), tr.get_retval()):
+                        fail("switch.edit: the return value is tagged NoChange although the executed branch's return value changed",
+                             idx=idx, n=n, old=tr.get_retval(), new=new.get_retval())
                     back, w_back, _, _ = sw.edit(jrand.fold_in(KEY, 3), new, bwd_, Diff.no_change(args))
                     if not (close(w_back, -w) and close(back.get_score(), tr.get_score())
                             and close(val(back.get_choices()[name]), val(tr.get_choices()[name]))):
